@@ -832,3 +832,221 @@ func runInstrAlias(p *core.Prog) *core.Result {
 	}
 	return res
 }
+
+// R-LAZYSYNC: importedString is a primitive value shared between Runtimes; its lazily computed
+// field u is written once by scan() (under scanOnce) before the atomic flag `scanned` is set.
+// Every other access of u must therefore be ordered after the flag: dominated by ensureScanned()
+// on the same string, or control-dependent on scanned.Load() == true, or on a string allocated in
+// the same function (not yet shared). Unlike R-LAZYSCAN (which asks whether the *answer* is
+// right) this has no semantic exceptions: an unsynchronised read is a data race even when both
+// outcomes give the same result.
+var LazySync = &core.Rule{Name: "R-LAZYSYNC", Run: runLazySync,
+	Doc: "every load/store of importedString.u outside scan() is dominated by ensureScanned() on the same receiver, or controlled by scanned.Load() == true, or applies to a freshly allocated importedString"}
+
+func runLazySync(p *core.Prog) *core.Result {
+	res := core.NewResult("R-LAZYSYNC", 10)
+	fU, err := p.Field(core.GojaPath, "importedString", "u")
+	if err != nil {
+		return res.Fail(err)
+	}
+	fScanned, err := p.Field(core.GojaPath, "importedString", "scanned")
+	if err != nil {
+		return res.Fail(err)
+	}
+	scan, err := p.GojaMethod("importedString", "scan")
+	if err != nil {
+		return res.Fail(err)
+	}
+	ensure, err := p.GojaMethod("importedString", "ensureScanned")
+	if err != nil {
+		return res.Fail(err)
+	}
+	seq := map[string]int{}
+	for _, fa := range p.FieldAddrs(fU) {
+		fn := fa.Parent()
+		if fn == scan {
+			continue
+		}
+		base := core.Origin(fa.X)
+		kb := core.FuncName(fn) + ":access of importedString.u"
+		seq[kb]++
+		key := kb
+		if seq[kb] > 1 {
+			key = fmt.Sprintf("%s#%d", kb, seq[kb])
+		}
+		pos := p.Pos(fa.Pos())
+		ok := ""
+		if al, isAlloc := base.(*ssa.Alloc); isAlloc && al.Heap {
+			ok = "the string is allocated in this function (not shared yet)"
+		}
+		if ok == "" {
+			// every path from the entry to this access passes ensureScanned(base) or the true edge of
+			// base.scanned.Load()
+			isLoad := func(v ssa.Value) bool {
+				c, isCall := v.(*ssa.Call)
+				if !isCall {
+					return false
+				}
+				if sc := c.Call.StaticCallee(); sc != nil && sc.Name() == "Load" && len(c.Call.Args) == 1 {
+					if sfa, isFa := c.Call.Args[0].(*ssa.FieldAddr); isFa && core.FieldOf(sfa) == fScanned && core.Origin(sfa.X) == base {
+						return true
+					}
+				}
+				return false
+			}
+			seen := map[*ssa.BasicBlock]bool{}
+			reached := false
+			var walk func(b *ssa.BasicBlock)
+			walk = func(b *ssa.BasicBlock) {
+				if seen[b] || reached {
+					return
+				}
+				seen[b] = true
+				for _, in := range b.Instrs {
+					if in == ssa.Instruction(fa) {
+						reached = true
+						return
+					}
+					if c, isCall := in.(*ssa.Call); isCall && c.Call.StaticCallee() == ensure && len(c.Call.Args) > 0 && core.Origin(c.Call.Args[0]) == base {
+						return
+					}
+				}
+				if ifi, isIf := b.Instrs[len(b.Instrs)-1].(*ssa.If); isIf {
+					cond, pol := ifi.Cond, true
+					for i := 0; i < 2; i++ {
+						if u, isU := cond.(*ssa.UnOp); isU && u.Op == token.NOT {
+							cond, pol = u.X, !pol
+						}
+					}
+					if isLoad(cond) {
+						// the successor taken when Load() is true is synchronised
+						if pol {
+							walk(b.Succs[1])
+						} else {
+							walk(b.Succs[0])
+						}
+						return
+					}
+				}
+				for _, sc := range b.Succs {
+					walk(sc)
+				}
+			}
+			walk(fn.Blocks[0])
+			if !reached {
+				ok = "every path passes ensureScanned() or scanned.Load() == true"
+			}
+		}
+		if ok != "" {
+			res.OK(key, pos, ok)
+		} else {
+			res.Bad(key, pos, "importedString.u is accessed without being ordered after the lazy scan (no dominating ensureScanned() on this string, not under scanned.Load()): when the same Go string value is used by two Runtimes on different goroutines this read races with the write in scan() (reported by -race; the Go memory model gives a torn slice header no meaning)")
+		}
+	}
+	return res
+}
+
+// R-INSTRESCAPE: mutable reference data owned by the Program - a []Value or *valueProperty held in
+// an instruction's field - must not become the storage of a runtime object: script can then write
+// it (Object.freeze flips the flags of a *valueProperty, element stores write the slice) while
+// other Runtimes running the same Program read it.
+var InstrEscape = &core.Rule{Name: "R-INSTRESCAPE", Run: runInstrEscape,
+	Doc: "in every exec(*vm) method of an instruction type, no value rooted at the receiver whose type is []Value, *valueProperty or a map is stored into memory not rooted at the receiver or passed to a module function that stores its parameter (writes-through summary on the stored-into side), except for the audited names-map flows of R-INSTRALIAS"}
+
+func runInstrEscape(p *core.Prog) *core.Result {
+	res := core.NewResult("R-INSTRESCAPE", 0)
+	it, err := p.GojaType("instruction")
+	if err != nil {
+		return res.Fail(err)
+	}
+	iface := it.Underlying().(*types.Interface)
+	fNames, err := p.Field(core.GojaPath, "stash", "names")
+	if err != nil {
+		return res.Fail(err)
+	}
+	mutableRef := func(t types.Type) bool {
+		switch u := t.Underlying().(type) {
+		case *types.Slice:
+			return core.IsGojaNamed(u.Elem(), "Value")
+		case *types.Pointer:
+			return core.IsGojaNamed(u.Elem(), "valueProperty")
+		}
+		return false
+	}
+	// storesParam: the callee stores parameter i (itself, as a reference) into memory
+	storesParam := func(f *ssa.Function, i int) bool {
+		if f == nil || f.Blocks == nil || i >= len(f.Params) {
+			return false
+		}
+		prm := f.Params[i]
+		found := false
+		core.AllInstrs(f, func(in ssa.Instruction) {
+			if st, ok := in.(*ssa.Store); ok && core.Origin(st.Val) == ssa.Value(prm) {
+				if _, isAlloc := st.Addr.(*ssa.Alloc); !isAlloc {
+					found = true
+				}
+			}
+		})
+		return found
+	}
+	nExec, nFlows := 0, 0
+	for _, f := range p.Funcs {
+		if f.Name() != "exec" || f.Signature.Recv() == nil || !types.Implements(f.Signature.Recv().Type(), iface) {
+			continue
+		}
+		nExec++
+		recv := f.Params[0]
+		k := 0
+		report := func(in ssa.Instruction, v ssa.Value, how string) {
+			k++
+			nFlows++
+			key := fmt.Sprintf("%s:program-owned %s escapes#%d", core.FuncName(f), core.TypeShort(v.Type()), k)
+			res.Bad(key, p.Pos(in.Pos()), fmt.Sprintf("a %s held in the instruction (Program-owned, shared by every Runtime that runs the Program) %s without being copied: script can mutate it in place (Object.freeze / defineProperty write the property flags, element stores write the slice) while another goroutine reads it", core.TypeShort(v.Type()), how))
+		}
+		core.AllInstrs(f, func(in ssa.Instruction) {
+			switch x := in.(type) {
+			case *ssa.Store:
+				if !mutableRef(x.Val.Type()) {
+					return
+				}
+				if r := core.RootOf(x.Val); r.Param != recv {
+					return
+				}
+				if fa, ok := x.Addr.(*ssa.FieldAddr); ok && core.FieldOf(fa) == fNames {
+					return
+				}
+				if ar := core.RootOf(x.Addr); ar.Param == recv {
+					return
+				}
+				if _, isAlloc := x.Addr.(*ssa.Alloc); isAlloc {
+					return
+				}
+				report(in, x.Val, "is stored into runtime memory")
+			case *ssa.Call:
+				sc := x.Call.StaticCallee()
+				if sc == nil || !p.InModule(sc) {
+					return
+				}
+				off := 0
+				for i, a := range x.Call.Args {
+					if !mutableRef(a.Type()) {
+						continue
+					}
+					if r := core.RootOf(a); r.Param != recv {
+						continue
+					}
+					if storesParam(sc, i+off) {
+						report(in, a, "is handed to "+core.FuncName(sc)+", which keeps the reference")
+					}
+				}
+			}
+		})
+	}
+	res.Count("exec_methods", nExec)
+	res.Count("escaping_flows", nFlows)
+	if nExec < 200 {
+		res.Unknown("floor:exec methods", "", fmt.Sprintf("only %d exec methods analysed", nExec))
+	}
+	res.OK("analysed", "", fmt.Sprintf("%d exec methods", nExec))
+	return res
+}
